@@ -217,7 +217,9 @@ class Ctx:
         if env:
             e.update(env)
         heap = os.environ.get("VERIF_TLC_HEAP", "8g")
-        cmd = ["java", "-XX:+UseParallelGC", "-Xmx" + heap]
+        jt = os.path.join(self.scratch, "jtmp")
+        os.makedirs(jt, exist_ok=True)
+        cmd = ["java", "-XX:+UseParallelGC", "-Xmx" + heap, "-Djava.io.tmpdir=" + jt]
         if env and env.get("_DEQUE"):
             cmd.append("-Dtlc2.tool.queue.IStateQueue=StateDeque")
         cmd += ["-cp", TLA_CP, "tlc2.TLC"] + args
@@ -385,6 +387,10 @@ class Ctx:
         e = dict(os.environ)
         e.update({"GOFLAGS": "-mod=mod", "GOPROXY": "off", "GOSUMDB": "off", "GOTOOLCHAIN": "local",
                   "CGO_ENABLED": e.get("CGO_ENABLED", "1")})
+        # temporary files of the go tool and of the harnesses (etcd data directories ...) live and die with the scratch
+        td = os.path.join(self.scratch, "tmp")
+        os.makedirs(td, exist_ok=True)
+        e["TMPDIR"] = td
         return e
 
     def _prepare_build(self):
